@@ -494,7 +494,17 @@ def _r17f(cx, get_conn):
     cx.ob("R17f", c, bool(base_ok), "per-prefix connection is derived from the caller's base connection" if base_ok else "derived connection does not wrap self.http_conn")
     kw = {k.arg: k.value for k in c.keywords}
     ad = kw.get("adapters")
-    ok = isinstance(ad, ast.Name) and any(isinstance(v, ast.Call) and call_name(v) == "RequestAdapterAddPathPrefix" and len(v.args) == 1 for _, v in assignments(get_conn, ad.id) if v is not None)
+    def _is_prefix_adapter(v):
+        return isinstance(v, ast.Call) and call_name(v) == "RequestAdapterAddPathPrefix" and len(v.args) == 1
+    if isinstance(ad, ast.Name):
+        cands = [v for _, v in assignments(get_conn, ad.id) if v is not None]
+    elif isinstance(ad, (ast.List, ast.Tuple)):
+        cands = list(ad.elts) if len(ad.elts) == 1 else [None]
+    else:
+        cands = [ad]
+    ok = bool(cands) and all(_is_prefix_adapter(v) for v in cands)
+    if not ok and ad is not None and not any(isinstance(v, (ast.Call, ast.List, ast.Tuple)) or v is None for v in cands):
+        raise AnalysisError("R17f", "ak/mcaller_http.py::MCallerHttp.get_conn", f"adapters argument `{norm(ad)[:60]}` not resolved")
     cx.ob("R17f", c, ok, "with exactly one path-prefix adapter" if ok else "derived connection does not get a single path-prefix adapter", stmt=norm(enclosing_stmt(c)) + " [adapter]")
     # cache: lookup key == store key == prefix used for the adapter
     stores = [n for n in walk_local(get_conn) if isinstance(n, ast.Subscript) and isinstance(n.ctx, ast.Store)]
@@ -678,4 +688,8 @@ def _r17h(cx, do_req):
     # response decoding
     rd = [st for st in do_req.body if isinstance(st, ast.If) and norm(st.test) == "not raw_response"]
     ok = len(rd) == 1 and any("decode('utf-8')" in norm(x) for x in rd[0].body) and any("json.loads" in norm(x) for x in ast.walk(rd[0])) and [norm(x) for x in rd[0].orelse] == ["ret_val = response"]
-    cx.ob("R17h", rd[0] if rd else do_req, ok, "response: raw object on request, else utf-8 text parsed as JSON when non-empty" if ok else "response decoding altered")
+    # (decoding of the response is not part of the property: recorded when recognised, otherwise only noted)
+    if ok:
+        cx.ob("R17h", rd[0], True, "response: raw object on request, else utf-8 text parsed as JSON when non-empty")
+    else:
+        cx.note("R17h: response decoding is not in the form known to this check; the property does not speak about it, no obligation recorded")
